@@ -186,7 +186,14 @@ EXPLANATION = (
     'NodeIds.add / remove / stableCompact / compact / pack + interpRemove / interpResize / interpPack / packSlots and prints the '
     'same line (stream interppack_pack, diff); interppack_gridpack runs the real ref_grid_pack (ref_edge_rcm) and '
     'ref_grid_stable_pack on the same inputs (oracle only). Oracle on both: the record found at a vertex POSITION (and, where '
-    'globals are not renumbered, at a global id) is the same before and after the pack, no slot >= n keeps a record.')
+    'globals are not renumbered, at a global id) is the same before and after the pack, no slot >= n keeps a record. '
+    'ref_interp_from_part (NOT modelled in Lean) is run for real on 1, 2 and 3 ranks by harness h_interpfrompart.c (stream '
+    'interp_from_part_mpi, oracle only): tet brick distributed with ref_migrate_shufflin after a generated part array, '
+    'background cached (ref_grid_cache_background), then up to three rounds of ref_interp_from_part with generated part arrays '
+    '(random, everything to one rank, slabs, unchanged, rotated, a few strays) handed over as ref_migrate_to_balance does; after '
+    'every round every vertex is owned once and has a record, the rank the record points to stores a valid donor cell whose '
+    'GLOBAL vertex ids and weights are the ones the vertex had before, and the weights reproduce the vertex position from the '
+    'donor positions to 1e-12 (so a log-linear field re-interpolated there is exp(L(x_v)) by fresh_loglinear).')
 
 ASSUMPTIONS = [
     'theorems hold in exact real arithmetic about the model; IEEE rounding is modelled (Float instance, bit-compared), '
@@ -200,8 +207,9 @@ ASSUMPTIONS = [
     'w0+w1+w2 = 1 (the stored fourth weight is 0 for triangles; observed, not proved)',
     'ref_interp_from_part (the re-association of every vertex with its donor record by global id after ref_migrate_to_balance: '
     'four blindsend stages, the neighbour fill of from_part, the re-identification of donor cells by their global vertex ids '
-    'after the donor grid itself was re-partitioned) and the migration alignment of (cell, bary, part) are NOT modelled: end to '
-    'end only (cli_adapt_loglin_mpi, cli_adapt_strip_mpi; parallel runs are also covered by the C04 streams)',
+    'after the donor grid itself was re-partitioned) and the migration alignment of (cell, bary, part) are NOT modelled in Lean '
+    '(no theorem): oracled in process on 1-3 ranks (interp_from_part_mpi) and end to end (cli_adapt_loglin_mpi, '
+    'cli_adapt_strip_mpi; parallel runs are also covered by the C04 streams)',
     'interppack: the maps of ref_node_compact (owned first) and ref_edge_rcm (the one ref_grid_pack uses) enter '
     'interpPack_aligned through the hypothesis PackMap - proved only for ref_node_stable_compact; compact is tied bit for bit '
     '(interppack_pack), rcm is oracled on the real ref_grid_pack (interppack_gridpack; ref_edge_rcm requires every valid vertex '
